@@ -680,7 +680,11 @@ fn encode_genotype_str(genotype: &str) -> io::Result<Vec<i8>> {
             .parse()
             .map_err(|e| io::Error::new(io::ErrorKind::InvalidInput, e))?;
 
-        let mut i = (j + 1) << 1;
+        // int8 genotype values hold allele indices up to 62.
+        let mut i = j
+            .checked_add(1)
+            .and_then(|n| n.checked_mul(2))
+            .ok_or_else(|| io::Error::new(io::ErrorKind::InvalidInput, "invalid allele index"))?;
 
         if is_phased {
             i |= 0x01;
@@ -715,7 +719,11 @@ fn encode_genotype(genotype: &dyn Genotype) -> io::Result<Vec<i8>> {
             return Ok(if phasing == Phasing::Phased { 0x01 } else { 0x00 });
         };
 
-        let mut n = (i + 1) << 1;
+        // int8 genotype values hold allele indices up to 62.
+        let mut n = i
+            .checked_add(1)
+            .and_then(|n| n.checked_mul(2))
+            .ok_or_else(|| io::Error::new(io::ErrorKind::InvalidInput, "invalid allele index"))?;
 
         if phasing == Phasing::Phased {
             n |= 0x01;
